@@ -21,6 +21,8 @@ def hostile_trace(rng, n):
         elif r < 0.04:
             ops.append(rng.choice([ic.new_checked(rng, rng.choice([None, ic.random_image(rng, True, 60)])),
                                    {"op": "load_raw", "image": ic.random_image(rng, rng.random() < 0.5, rng.choice([0, 9, 240]))[:240]}]))
+        elif r < 0.05:
+            ops.append({"op": "set_limits", "ss": rng.choice([0, 16, 32, 48, 64]), "ps": rng.choice([-2, -1, 0, 5, 255, rng.randrange(256)])})
         elif r < 0.07:
             ops += [{"op": "mode", "v": "Assembly"}, {"op": "key_clock", "n": rng.randrange(1, 12)}, {"op": "mode", "v": "Real"}]
         elif r < 0.55:
